@@ -106,4 +106,49 @@ theorem sinterTail_ro (m : Nat) (hm : m = 0 ∨ m = 2) (l : Int) (a d : Bytes) (
 theorem handleSInter_ro (m : Nat) (hm : m = 0 ∨ m = 2) (c : Ctx) (cmd : List Bytes) : (handleSInter m c cmd).ReadOnly := by
   unfold handleSInter; ro <;> exact sinterTail_ro m hm _ _ _ _
 
+
+/-! ### sorted-set readers -/
+
+theorem withZSet_ro {α : Type} (cmd : List Bytes) (a : Bool) (p : PRes α) (r : Res) (m : Bytes → Bytes)
+    (k : Bytes → KMap Flt → α → Prog Res) (h : ∀ x y z, (k x y z).ReadOnly) : (withZSet cmd a p r m k).ReadOnly := by
+  unfold withZSet; ro; exact h _ _ _
+theorem collectZSets_ro (ks : List (Bytes × Bool)) : ∀ (k : List (KMap Flt) → Prog Res), (∀ x, (k x).ReadOnly) →
+    (collectZSets ks k).ReadOnly := by
+  induction ks with
+  | nil => intro k h; exact h _
+  | cons x r ih =>
+    intro k h
+    obtain ⟨key, e⟩ := x
+    unfold collectZSets
+    split
+    · exact ih k h
+    · refine ro_call _ _ rfl ?_
+      intro vs
+      split
+      · trivial
+      · apply ih; intro acc; exact h _
+theorem handleZCard_ro (c : Ctx) (cmd : List Bytes) : (handleZCard c cmd).ReadOnly := by
+  unfold handleZCard; apply withZSet_ro; intros; ro
+theorem handleZCount_ro (c : Ctx) (cmd : List Bytes) : (handleZCount c cmd).ReadOnly := by
+  unfold handleZCount; apply withZSet_ro; intros; ro
+theorem handleZLexCount_ro (c : Ctx) (cmd : List Bytes) : (handleZLexCount c cmd).ReadOnly := by
+  unfold handleZLexCount; apply withZSet_ro; intros; ro
+theorem handleZMScore_ro (c : Ctx) (cmd : List Bytes) : (handleZMScore c cmd).ReadOnly := by
+  unfold handleZMScore; apply withZSet_ro; intros; ro
+theorem handleZScore_ro (c : Ctx) (cmd : List Bytes) : (handleZScore c cmd).ReadOnly := by
+  unfold handleZScore; apply withZSet_ro; intros; ro
+theorem handleZRandMember_ro (c : Ctx) (cmd : List Bytes) : (handleZRandMember c cmd).ReadOnly := by
+  unfold handleZRandMember; apply withZSet_ro; intros; ro
+theorem handleZRank_ro (c : Ctx) (cmd : List Bytes) : (handleZRank c cmd).ReadOnly := by
+  unfold handleZRank; apply withZSet_ro; intros; ro
+theorem handleZRange_ro (c : Ctx) (cmd : List Bytes) : (handleZRange c cmd).ReadOnly := by
+  unfold handleZRange; apply withZSet_ro; intros; ro
+theorem handleZDiff_ro (c : Ctx) (cmd : List Bytes) : (handleZDiff false c cmd).ReadOnly := by
+  unfold handleZDiff; ro <;> (apply collectZSets_ro; intro _; ro) <;> simp_all
+theorem zCombineTail_ro (i ws : Bool) (d a : Bytes) (rows : List (Bytes × Bool × Val × Int)) :
+    (zCombineTail i false ws d a rows).ReadOnly := by
+  unfold zCombineTail; ro <;> simp_all
+theorem handleZCombine_ro (i : Bool) (c : Ctx) (cmd : List Bytes) : (handleZCombine i false c cmd).ReadOnly := by
+  unfold handleZCombine; ro <;> first | exact zCombineTail_ro _ _ _ _ _ | simp_all
+
 end Sugar
